@@ -323,6 +323,10 @@ fn check_state(root: &str, tag: &str, base: usize, path: &[Op], page: u64, divse
 		if ds.len() == 1 && ds[0] == Div::CancelAfterPost {
 			plans.push((ds, true));
 		}
+		// dropping stale unconfirmed outputs does not depend on what the scanned range of the chain holds
+		if ds.len() == 1 && ds[0] == Div::StaleUnconfirmed {
+			plans.push((ds, true));
+		}
 	}
 	for (ds, late_start) in plans.into_iter() {
 		for delete_unconfirmed in [false, true].iter() {
